@@ -117,6 +117,12 @@ def rules(ctx, tier):
     replay_skips(ctx, r)
     r.need(1, "skip branch in the replay loop")
     out.append(r.finish())
+    # what was logged before a clean shutdown is read back in full: the reader does not take a record the writer may
+    # produce for the end of the log (shared with C10-R6)
+    from . import c10
+    x = c10.end_of_log_rule(ctx, "R8")
+    x.title += " (shared with C10-R6)"
+    out.append(x)
     return out
 
 
@@ -207,13 +213,15 @@ def snapshot_version(ctx, r, loaders):
             continue
         b = w.body
         sl = Slicer(ctx.world, b)
-        written = sl.leaves_of_operand(w.rv["op"]) if w.rv["k"] == "use" else set()
+        # (the version may be handed to a private helper that stores it: trace parameters up to the callers)
+        written = sl.leaves_up(w.rv["op"], depth=4) if w.rv["k"] == "use" else set()
         wal_calls = [l for l in written if l[0] == "call"]
         walmgr = A.get("WALMGR")
         from_wal = False
         for l in wal_calls:
-            t = b.blocks[l[2]]["term"]
-            tgt = prog.local_target(Site(b, l[2], t))
+            t = sl.call_at(l[2])
+            lb = sl.body_at(l[2])
+            tgt = prog.local_target(Site(lb, l[2][1] if isinstance(l[2], tuple) else l[2], t))
             if tgt is not None and tgt.argc >= 1 and prog.adt_of(tgt.locals[1])[0] == walmgr:
                 from_wal = True
         r.check(from_wal and len(written) == 1, "version-source", b,
@@ -232,7 +240,7 @@ def snapshot_version(ctx, r, loaders):
         for s in prunes:
             pl = set()
             for a in s.term["args"][1:]:
-                pl |= sl.leaves_of_operand(a)
+                pl |= sl.leaves_up(a, depth=4)
             r.check(bool(written & pl), "prune-version", b,
                     "the prune step at %s is given the version that was just saved" % site_where(s),
                     "the prune step at %s is given %s, not the version just saved (%s)" % (
